@@ -9,6 +9,7 @@ it plus monotonicity of the client.
     a Some result is merged; a changed merge result is stored (compared with the OLD value)
  R4 step bound: steps < max guards processing, increment with it; stabilized <=> empty worklist
  R5 order is free (deliberately no rule); priority lists contain every node exactly once
+ R3+ (added after seed C07c) a priority leaves the worklist BEFORE its node is processed (execution order, helpers followed)
 """
 from .lib import sym as S
 from .lib import thir as T
